@@ -62,6 +62,17 @@ main(int argc, char **argv)
 		tran = tranbuf;
 		nb   = true;
 	}
+	// "<transport>-crowd": five more sockets are opened first, so that the id maps of the library (sockets, and with them
+	// contexts / pipes of the later steps) GROW while the swept calls run - an id map resizes at its sixth entry - and the
+	// crowd is queried and closed at the end (a map damaged by a failed resize shows there)
+	bool       crowd = false;
+	nng_socket extra[5];
+	bool       extra_open[5] = { false, false, false, false, false };
+	if (strlen(tran) > 6 && strcmp(tran + strlen(tran) - 6, "-crowd") == 0 && strlen(tran) < sizeof(tranbuf)) {
+		snprintf(tranbuf, sizeof(tranbuf), "%.*s", (int) strlen(tran) - 6, tran);
+		tran  = tranbuf;
+		crowd = true;
+	}
 	k    = atol(argv[2]);
 	setvbuf(stdout, NULL, _IOLBF, 0);
 	signal(SIGALRM, on_alarm);
@@ -75,6 +86,9 @@ main(int argc, char **argv)
 	valloc_fail_at(k);
 	if (step("init", nng_init(&ip)) != 0) {
 		goto out; // nothing was started: nothing to stop
+	}
+	for (int i = 0; crowd && i < 5; i++) {
+		extra_open[i] = step("extra_open", nng_pair0_open(&extra[i])) == 0;
 	}
 	rep_open = step("rep_open", nng_rep0_open(&rep)) == 0;
 	req_open = step("req_open", nng_req0_open(&req)) == 0;
@@ -188,11 +202,22 @@ main(int argc, char **argv)
 			nng_stats_free(st);
 		}
 	}
+	for (int i = 0; crowd && i < 5; i++) {
+		if (extra_open[i]) {
+			int v = 0;
+			step("extra_get", nng_socket_get_int(extra[i], NNG_OPT_RECVBUF, &v));
+		}
+	}
 	if (req_open) {
 		step("req_close", nng_socket_close(req));
 	}
 	if (rep_open) {
 		step("rep_close", nng_socket_close(rep));
+	}
+	for (int i = 0; crowd && i < 5; i++) {
+		if (extra_open[i]) {
+			step("extra_close", nng_socket_close(extra[i]));
+		}
 	}
 	nng_fini();
 out:
